@@ -225,7 +225,7 @@ def latest_cases(chk, drv, work):
     rng = chk.rng
     for it in range(chk.n(6, 16)):
         folder = os.path.join(work, 'lat_%d' % it)          # underscore and dot in the folder name on purpose
-        folder = folder + rng.choice(['', '_v1.5', '.d_x', '_grid_8x8x4', '.grid_16'])
+        folder = folder + rng.choice(['', '_v1.5', '.d_x', '_grid_8x8x4', '.grid_16', '[1]', '_[a-c]x', '_run*2', '_q?'])     # also characters that mean something to glob
         if rng.random() < 0.3:
             # a parent directory whose name looks like a checkpoint name
             folder = os.path.join(work, 'scan_grid_%d' % rng.choice([3, 16, 250]), os.path.basename(folder))
@@ -292,6 +292,8 @@ def latest_cases(chk, drv, work):
             other = [n for n in sorted(STD4) if n != layname][it % 2]
             grid.setLayout(other)
             L = grid.getLayout(other)
+            # the loaded field is the grid's field from now on: a layout change after the load moves IT
+            out['aux_moved'] = (other, np.array(grid.getAllData(), copy=True), tuple(L.dims_order), [int(x) for x in L.starts], [int(x) for x in L.ends])
             try:
                 grid.loadFromFile(folder, max(times))
                 out['wrong_layout'] = (other, np.array(grid.getAllData(), copy=True), tuple(L.dims_order), [int(x) for x in L.starts], [int(x) for x in L.ends])
@@ -326,6 +328,13 @@ def latest_cases(chk, drv, work):
             wa = np.transpose(2 * base - max(aux_times), order)[tuple(slice(a, b) for a, b in zip(st, en))]
             if not same_bits(blk, np.ascontiguousarray(wa)):
                 chk.fail('C18:latest-by-name', 'loadFromFile(folder, None, "aux") does not load the latest checkpoint of that name',
+                         dict(case, rank=ri, aux_times=aux_times))
+                break
+        for ri, o in enumerate(r.values()):
+            other, blk, order, st, en = o['aux_moved']
+            wa = np.transpose(2 * base - max(aux_times), order)[tuple(slice(a, b) for a, b in zip(st, en))]
+            if blk.shape != wa.shape or not same_bits(blk, np.ascontiguousarray(wa)):
+                chk.fail('C18:load-then-move', 'after loadFromFile and a layout change (to %s) the grid does not hold the loaded field' % other,
                          dict(case, rank=ri, aux_times=aux_times))
                 break
         for ri, o in enumerate(r.values()):
